@@ -2,6 +2,7 @@ package completion
 
 import (
 	"unicode"
+	"unicode/utf8"
 
 	"github.com/reeflective/readline/inputrc"
 	"github.com/reeflective/readline/internal/core"
@@ -116,8 +117,9 @@ func (e *Engine) acceptCandidate() {
 	e.inserted = []rune(completion)
 
 	// Remove the line prefix and insert the candidate.
-	e.cursor.Move(-1 * len(e.prefix))
-	e.line.Cut(e.cursor.Pos(), e.cursor.Pos()+len(e.prefix))
+	prefix := utf8.RuneCountInString(e.prefix)
+	e.cursor.Move(-1 * prefix)
+	e.line.Cut(e.cursor.Pos(), e.cursor.Pos()+prefix)
 	e.cursor.InsertAt(e.inserted...)
 
 	// And forget about this inserted completion.
@@ -152,8 +154,9 @@ func (e *Engine) insertCandidate() {
 	e.compCursor.Set(e.cursor.Pos())
 
 	// Remove the line prefix and insert the candidate.
-	e.compCursor.Move(-1 * len(e.prefix))
-	e.compLine.Cut(e.compCursor.Pos(), e.compCursor.Pos()+len(e.prefix))
+	prefix := utf8.RuneCountInString(e.prefix)
+	e.compCursor.Move(-1 * prefix)
+	e.compLine.Cut(e.compCursor.Pos(), e.compCursor.Pos()+prefix)
 	e.compCursor.InsertAt(e.inserted...)
 }
 
@@ -178,7 +181,7 @@ func (e *Engine) prepareSuffix() (comp string) {
 	// matcher for later: whatever the decision we take here will be identical
 	// to the one we take while removing suffix in "non-virtual comp" mode.
 	e.sm = cur.noSpace
-	e.sm.pos = e.cursor.Pos() + len(comp) - prefix - 1
+	e.sm.pos = e.cursor.Pos() + utf8.RuneCountInString(comp) - utf8.RuneCountInString(e.prefix) - 1
 
 	return comp
 }
